@@ -363,7 +363,7 @@ def hook_applied():
         src = open(os.path.join(vlib.REPO, TU)).read()
     except Exception:
         return False
-    return "lzma_verif_event" in src
+    return "lzma_verif_mtenc_event" in src
 
 
 def build_harness(ctx, variant, events):
@@ -524,10 +524,9 @@ def run(ctx):
 
 def trace_inclusion(ctx, exe_s, env):
     """Harness lines with ev=1 print the H3 event trace; the model driver must accept every trace and agree on the observables."""
-    rng = ctx.rng
-    n = 250 if ctx.quick() else 2500
+    n = 400 if ctx.quick() else 4000
     scen = gen_scenarios(ctx, n, True, "e")
-    lines = [l.replace(" S:", " ev=1 S:", 1) for l, _ in scen]
+    lines = [l.replace(" S:", " ev=1 S:", 1).replace(" dump=1", "") for l, _ in scen]
     parts = vlib.chunks(list(range(len(lines))), vlib.NCPU * 2)
     res_parts = vlib.par_map(lambda idx: run_lines_resilient(exe_s, [lines[i] for i in idx], env=env), parts)
     mexe = vlib.model_exe("xzm_c08")
@@ -550,7 +549,7 @@ def trace_inclusion(ctx, exe_s, env):
         ctx.obligation_broken("model driver xzm_c08 failed to answer every trace", str([e for (_, _, e) in mres])[:1500])
     else:
         for tl, o, i in zip(traces, mout, owners):
-            ctx.count("trace-events", len(tl) // 2)
+            ctx.count("trace-events", tl.count(",") + 1)
             if o.startswith("accept"):
                 acc += 1
             else:
